@@ -54,5 +54,15 @@ CLAIMS = {
     note="Trusted: z3, the DSE shim; NumPy's argsort/searchsorted/nonzero run for real on object arrays. Array shapes are fixed per configuration (<= 4 rows), "
          "values fully symbolic. pandas plumbing assumed to hand over the stored columns. Not covered: make_uset/addgrid, find_subseq, larger shapes.",
     technique="contracts checked on every path of the real functions by dynamic symbolic execution (z3 Int/BitVec); constant-table evaluation; bounded defining-equation checks"),
+ "C13": dict(
+    text="Proof (z3 loop invariant, every list length) that _find_sequence returns the end of the maximal +1 run; proof by dynamic symbolic execution of the "
+         "real writers wtset, wtspoints, wtxset1, wtseset (THRU compression through _wt_with_thru/wtcard8/_wrap_text_lines), wtcsuper and wtnasints: for "
+         "every run structure of symbolic ids (every path) the text produced follows the card grammar written independently in the contract (8-column "
+         "fields, repeated headers, continuation lines, THRU triples never straddling a line, SET lines <= 72 columns) and the expansion of what was "
+         "written (single -> [a], a THRU b -> a..b) equals the id list, each id exactly once, in order. List lengths are fixed per configuration "
+         "(1..10 / up to 25 for plain integer lists). Reader side, float/DMIG/GRID writers: bounded real write->read round trips (labelled bounded).",
+    note="Trusted: z3, the DSE shim (ids are formatted into fixed-width placeholder tokens), the card grammars in props/C13.py. Assumes '{:8d}' yields 8 "
+         "characters for ids < 10^8. Not covered deductively: rdsets/rdcards/rddmig (regex/split/pandas), wtdmig/wtgrids float formatting, coordinate cards.",
+    technique="contracts as card grammars + expansion equality checked on every path of the real writers (DSE + z3); loop-invariant VCs for _find_sequence; bounded round trips"),
 }
 NOT_APPLICABLE = {}
